@@ -111,6 +111,7 @@ def judge_case(res, exprs, k, rng, hits=None):
                 r4.violation("order-dependent-merge", f"{exprs} k={k}: {RT.show(term)} vs {RT.show(t2)}", wit)
                 break
     # the same through the stub builder's merge of whole traces (argument, return and yield position)
+    t_store = None
     if len(types) > 1:
         from monkeytype.stubs import shrink_traced_types
         from monkeytype.tracing import CallTrace
@@ -139,6 +140,24 @@ def judge_case(res, exprs, k, rng, hits=None):
                         if not member(v, t3):
                             r4.violation("value-not-admitted-by-trace-merge", f"value {e} not a member of {RT.show(t3)} (k={k}, values={exprs})", wit)
                             break
+                # ... and once more after the traces went through the store's row encoding and back (what `stub` merges)
+                from monkeytype.encoding import CallTraceRow
+
+                try:
+                    dec = [CallTraceRow.from_trace(tr).to_trace() for tr in traces]
+                except Exception:
+                    r4.count("store_round_trip_not_encodable")
+                else:
+                    r4.count("store_round_trip_merges")
+                    try:
+                        at, rt_, yt = shrink_traced_types(dec, k)
+                        ts = {RT.to_rt(at["a"]), RT.to_rt(rt_), RT.to_rt(yt)}
+                    except Exception as e:
+                        r4.violation(f"trace-merge-raises:{type(e).__name__}:after-store-round-trip", f"{exprs} k={k}: {e!r}", wit)
+                        ts = {t3}
+                    if ts != {t3}:
+                        t_store = sorted(ts - {t3}, key=RT.show)[0]
+                        r4.violation("trace-merge-differs-after-store-round-trip", f"{exprs} k={k}: {RT.show(t3)} directly, {RT.show(t_store)} from decoded rows", wit)
     if len(RT.td_nodes(term)) or term[0] == "union":
         r4.count("nontrivial_terms")
     # ---- C05 tightness
@@ -157,6 +176,11 @@ def judge_case(res, exprs, k, rng, hits=None):
                     term = rterm
         except Exception:
             pass
+    if not bad and t_store is not None and not RT.has_unknown(t_store):
+        r5.count("store_round_trip_terms_walked")
+        bad = tight(t_store, vals, any_ok=False, stats={})
+        if bad:
+            term = t_store
     r5.shape(shp + f"|k{min(k, 11)}")
     r5.count("union_nodes_walked", stats.get("union", 0))
     r5.count("td_nodes_walked", stats.get("td", 0))
